@@ -341,6 +341,11 @@ class IntTr:
             if ty == "vec":
                 return "true", "bool"
             fail(e, "isinstance")
+        if isinstance(f, ast.Attribute) and f.attr == "copy" and not e.args and not e.keywords:
+            t, ty = self.expr(f.value, cur)
+            if ty in ("vec", "mat", "bvec"):
+                return t, ty              # x.copy(): values are immutable in the model
+            fail(e, "copy")
         if isinstance(f, ast.Attribute) and f.attr == "astype" and len(e.args) == 1 and ast.dump(e.args[0]) == dump("int"):
             t, ty = self.expr(f.value, cur)
             if ty in ("vec", "mat"):
@@ -360,6 +365,8 @@ class IntTr:
             args = [self.expr(a, cur) for a in e.args]
             tys = [a[1] for a in args]
             tx = [a[0] for a in args]
+            if fn == "array" and len(args) == 1 and not kw and tys[0] in ("vec", "mat", "bvec"):
+                return tx[0], tys[0]      # np.array(x): a fresh copy; values are immutable in the model
             if fn == "arange" and tys == ["int", "int"] and not kw:
                 return f"(np_arange {tx[0]} {tx[1]})", "vec"
             if fn == "isin" and tys == ["vec", "vec"] and not kw:
